@@ -76,7 +76,7 @@ Expr gen_num(Ctx& c, int depth) {
     case 101: return Expr::Op(1, {gen_num(c, depth - 1), gen_num(c, depth - 1)});
     case 102: return Expr::Op(2, {Expr::Num((double)c.rng.range(2, 5)), gen_num(c, depth - 1)});
     case 103: {
-      int n = (int)c.rng.range(2, 4);
+      int n = (int)c.rng.range(3, 4);   // NL: sum needs >= 3 args (binary + otherwise)
       std::vector<Expr> a;
       for (int i = 0; i < n; ++i) a.push_back(gen_num(c, depth - 1));
       return c.rng.chance(0.2) ? Expr::Op(16, {Expr::Op(54, a)}) : Expr::Op(54, a);
@@ -163,7 +163,7 @@ Expr gen_log(Ctx& c, int depth) {
       return Expr::Op(72, {gen_log(c, depth - 1), gen_log(c, depth - 1), els}, true);
     }
     case 5: case 6: {
-      int n = (int)c.rng.range(2, 3);
+      int n = (int)c.rng.range(3, 4);   // NL: forall/exists need >= 3 args
       std::vector<Expr> a;
       for (int i = 0; i < n; ++i) a.push_back(gen_log(c, depth - 1));
       return Expr::Op(ch == 5 ? 70 : 71, a, true);
